@@ -31,6 +31,9 @@ fn main() {
         usage();
     }
     env::install_panic_hook();
+    if std::env::var("HBMC_ALLOC_PASSTHROUGH").is_ok() {
+        env::PASSTHROUGH.store(true, std::sync::atomic::Ordering::Relaxed);
+    }
     match args[1].as_str() {
         "run" => cmd_run(&args[2..]),
         "replay" => cmd_replay(&args[2..]),
